@@ -27,6 +27,13 @@ func cmdRunTrace(args []string) int {
 		fmt.Printf("VIOL %s :: %s\n", v.Signature(), v.Detail)
 	}
 	fmt.Printf("probes %v steps %d size %d\n", out.Probes, out.IOSteps, out.FileSize)
+	if os.Getenv("SHOWLOG") != "" {
+		for _, le := range out.Log {
+			if le.Op == "write" {
+				fmt.Printf("   step %d op %d write [%d,%d) %s\n", le.Step, le.OpIdx, le.Off, le.Off+int64(le.Len), le.Fn)
+			}
+		}
+	}
 	if out.Final != nil {
 		for _, o := range out.Final.Objs {
 			fmt.Printf("  %s %s info=%q f64=%v/%s strs=%v/%s attrs=%d/%s\n", o.Path, o.Kind, o.Info, o.F64, o.F64Err, o.Strs, o.StrsErr, len(o.Attrs), o.AttrsErr)
